@@ -9,7 +9,7 @@ def rdiv(x, l):
 
 class C01(Prop):
     pid = "C01"
-    lean_targets = ["M17.Props.C01", "M17.Props.C01F", "M17.Props.C13T", "M17.Props.C14T"]
+    lean_targets = ["M17.Props.C01", "M17.Props.C01F", "M17.Props.C01G", "M17.Props.C13T", "M17.Props.C14T"]
     theorems = ["M17.C01.any_path_ge_base", "M17.C01.sent_path_eq_base", "M17.C01.other_path_gt", "M17.C01.viterbi_clean_exact",
                 "M17.C01.geometries_no_double_erasure",
                 "M17.C01F.dc_bridge", "M17.C01F.condition_image", "M17.C01F.punct_eq", "M17.C01F.geometries_noDouble",
@@ -17,6 +17,8 @@ class C01(Prop):
                 "M17.C01F.lsf_roundtrip", "M17.C01F.stream_roundtrip", "M17.C01F.packet_roundtrip", "M17.C01F.bert_roundtrip",
                 "M17.C01F.lich_roundtrip", "M17.C01F.lich_callback",
                 "M17.C01F.lsf_cost_zero", "M17.C01F.stream_cost_zero", "M17.C01F.packet_cost_zero", "M17.C01F.softAt_image",
+                "M17.C01G.sum_depuncture", "M17.C01G.sum_deinterleave", "M17.C01G.sum_randSoft",
+                "M17.C01G.lsf_cost_formula", "M17.C01G.packet_cost_formula", "M17.C01G.bert_cost_formula", "M17.C01G.stream_cost_formula",
                 "M17.C13T.m17mod_lsf_decodes", "M17.C13T.m17mod_stream_decodes", "M17.C14T.modulator_lsf_decodes", "M17.C14T.modulator_stream_decodes"]
     level_text = ("Lean 4 frame-level theorems (M17.Props.C01F) about the decoder model Dec.step fed with ANY clean soft image (correct signs, "
                   "per-position magnitudes 1..7) of a frame built by the independent specification encoder Spec.Tx (convolutional code, puncture, "
@@ -24,7 +26,9 @@ class C01(Prop):
                   "exactly, reported with result OK iff the CRC checks, else FAIL without a callback), stream_roundtrip (stream mode: callback = the "
                   "18 data bytes, any LICH fragment), lich_roundtrip / lich_callback (link-setup mode: unpack_lich returns exactly the five LSF bytes "
                   "of slot n mod 6 and the counter, for every n), packet_roundtrip (all 2^206 payloads, both packet modes, EOF rule), "
-                  "bert_roundtrip (all 2^197), each with cost = round(slack/7) and *_cost_zero: cost 0 when every soft value is +-7. They compose "
+                  "bert_roundtrip (all 2^197), each with cost = round(slack/7) and *_cost_zero: cost 0 when every soft value is +-7; C01G.*_cost_formula: "
+                  "slack is exactly the sum over the received int8 values r of (7 - |r|) (de-puncturing places each value once, de-interleaving is a "
+                  "permutation, de-randomizing flips signs), i.e. the cost formula the correspondence oracle uses. They compose "
                   "per-stage lemmas proved here and in C02/C04/C05/C09/C10/C11: dc_bridge (spec randomizer bytes = the code's +-1 table), "
                   "condition_image (de-randomize + de-interleave undo the spec's interleave + randomize on soft values), punct_eq (spec puncturing = "
                   "the code's loop), depunct_consistent + geometries_noDouble (kernel evaluation: no trellis step of the four geometries loses both "
@@ -136,7 +140,8 @@ class C01(Prop):
             # BERT
             for m in mags("bert")[:3]:
                 bits = [rng.randrange(2) for _ in range(197)]
-                add(3, S.soft(S.bert_frame_bits(bits), m), {"kind": "bert", "calls": [(5, list(S.pack(bits)))], "result": 1, "cost": None, "mode": 4})
+                cost = rdiv(sum(7 - x for x in (m if isinstance(m, list) else [m] * 368)), 7)     # C01G.bert_cost_formula
+                add(3, S.soft(S.bert_frame_bits(bits), m), {"kind": "bert", "calls": [(5, list(S.pack(bits)))], "result": 1, "cost": cost, "mode": 4})
         impl = ctx.run_impl(exe, lines, "dec-clean")
         self.judge(ctx, lines, exp, impl, "spec-encoder")
         self.spec_tie(ctx)
